@@ -418,7 +418,8 @@ pub struct GenDesc {
 }
 
 pub fn gen_desc(r: &mut Rng, settings_only: bool) -> GenDesc {
-    NO_BACKSLASH.store(settings_only, std::sync::atomic::Ordering::Relaxed);
+    // (strings of settings-only files may contain back slashes again: the string theorem covers them)
+    NO_BACKSLASH.store(false, std::sync::atomic::Ordering::Relaxed);
     let mut d = gp::GenericStationDescription::default();
     let p_set = r.range(2, 9) as u64; // probability (of 10) that a scalar differs from its default
     let mut on = |r: &mut Rng| r.below(10) < p_set;
